@@ -244,6 +244,8 @@ func c07Tight(args []string) error {
 		b := collectLines(scaled2{ci, 1024}, render.NewMarchingSquaresQuadtree(cells*4))
 		emit(hierObs{Ev: "hier", Name: "seq-circle", Dim: 2, Cells: cells * 4, N: len(ls[i]), NFlat: len(b), Diff: lineDiff(ls[i], b), Seq: i + 1})
 	}
+	// full-lattice reference scenes (c07f.go)
+	c07FlatScenes()
 	return nil
 }
 
